@@ -70,13 +70,15 @@ def evJson : Ev → Json
   | .mem m x => jarr [Json.str "mem", Json.str m, jint x]
 
 def stJson (s : St) : Json :=
-  Json.mkObj [("struct", jdict s.struct), ("mem", jdict s.mem), ("evs", jarr (s.evs.map evJson)), ("ok", Json.bool s.ok),
-              ("exc", jexc s.exc)]
+  Json.mkObj [("struct", jdict s.struct), ("mem", jdict s.mem), ("sP", Json.bool s.sP),
+              ("mP", jarr (s.mem.map (fun e => Json.bool (s.mP.contains e.1)))),
+              ("evs", jarr (s.evs.map evJson)), ("ok", Json.bool s.ok), ("exc", jexc s.exc)]
 
 def structCfg (j : Json) : R Cfg := do
   let hr ← fldStrs j "hasR"; let hw ← fldStrs j "hasW"
   return { members := ← fldStrs j "members", hasRS := ← fldBool j "hasRS", hasWS := ← fldBool j "hasWS",
-           hasR := fun m => hr.contains m, hasW := fun m => hw.contains m }
+           hasR := fun m => hr.contains m, hasW := fun m => hw.contains m,
+           omitUnch := match j.getObjVal? "omit" with | .ok (.bool b) => b | _ => false }
 
 /-! float/enum -/
 
@@ -239,7 +241,12 @@ def handle (j : Json) : R Json := do
   match k with
   | "struct" =>
     let cfg ← structCfg j; let ops ← (← fldArr j "ops").mapM (parseSOp cfg.members)
-    return Json.mkObj [("init", stJson (init cfg)), ("states", jarr ((run cfg (init cfg) ops).map stJson))]
+    let sP0 := match j.getObjVal? "sP0" with | .ok (.bool b) => b | _ => false
+    let mP0 := match j.getObjVal? "mP0" with
+      | .ok (.arr a) => a.toList.filterMap (fun x => match x with | .str m => some m | _ => none)
+      | _ => []
+    let s0 : St := { init cfg with sP := sP0, mP := mP0 }
+    return Json.mkObj [("init", stJson s0), ("states", jarr ((run cfg s0 ops).map stJson))]
   | "judge_struct" =>
     let members ← fldStrs j "members"
     let trace ← (← fldArr j "trace").mapM (fun e => do
